@@ -6,7 +6,8 @@
    sides): a GFA2 base graph and up to four "slots", each slot an O or U line
    whose item list ranges over ALL sequences (length lo..hi) over the slot's
    alphabet of items (segments+-, edges+-, nested paths+-, sets, an undefined
-   identifier).  The item list of slot 1 can be cut into 1..3 consecutive
+   identifier), or over an explicit list of item lists given in the catalogue
+   (targeted families).  The item list of slot 1 can be cut into 1..3 consecutive
    chunks = several lines with the same identifier (families of kind "walks":
    slot 1 ranges instead over every way of leaving elements out of every walk of
    the graph with a bounded number of edges); the lines arrive in the
@@ -29,8 +30,9 @@
                      orientations inverted) are the reversed walks
      MergeAgrees     MergedItems / MergedTags (written here from the GFA2
                      sentence) agree with Gfa!MergeGroup on the delivered lines
-     InducedClosed   the induced set contains both segments of each of its edges
-                     and the segments of the captured walk of a path it lists  *)
+     InducedClosed   the induced set contains what the group lists, both segments
+                     of each listed edge and the segments and edges of the
+                     captured walk of a path it reaches                        *)
 EXTENDS Groups, Json, IOUtils, TLC
 
 Cat   == JsonDeserialize(IOEnv.CATALOG_FILE)
@@ -74,6 +76,7 @@ SeqsOf(k) ==
   LET sl == Fam.slots[k]
       A == Rng(sl.alph) IN
   IF k = 1 /\ Fam.kind = "walks" THEN Presentations
+  ELSE IF sl.seqs # <<>> THEN Rng(sl.seqs)       \* an explicit list of item lists
   ELSE
   {s \in UNION {[1..n -> A] : n \in sl.lo..sl.hi} :
        sl.must = <<>> \/ \E i \in DOMAIN s : s[i] \in Rng(sl.must)}
@@ -167,8 +170,9 @@ WellFormed(D, id) ==
     /\ Len(w) % 2 = 1
     /\ \A i \in DOMAIN w :
          IF i % 2 = 1 THEN LineNamed(D, w[i].id).rt = "S"
-         ELSE LET e == LineNamed(D, w[i].id) IN
-              e.rt = "E" /\ EFrom(e, w[i].o) = w[i - 1] /\ ETo(e, w[i].o) = w[i + 1]
+         ELSE \E j \in EdgeIdxOf(D) :      \* (a supplied edge may be unnamed)
+                /\ D[j].name = w[i].id
+                /\ EFrom(D[j], w[i].o) = w[i - 1] /\ ETo(D[j], w[i].o) = w[i + 1]
 Reversal(D, id) ==
   LET its == LineNamed(D, id).refs
       fw == WalksOf(D, Strict, its, {id})
@@ -191,7 +195,9 @@ MergeAgrees(D, id) ==
 InducedClosed(D, id) ==
   LET is == InducedSet(D, id) IN
   is.ok =>
-    /\ \A i \in EdgeIdxOf(D) : D[i].name \in is.edges => {D[i].refs[1].id, D[i].refs[2].id} \subseteq is.segs
+    /\ \A x \in RefIds(LineNamed(D, id)) :       \* what is listed is in the set
+         /\ LineNamed(D, x).rt = "S" => x \in is.segs
+         /\ LineNamed(D, x).rt = "E" => x \in is.edges /\ {LineNamed(D, x).refs[1].id, LineNamed(D, x).refs[2].id} \subseteq is.segs
     /\ \A p \in PathsReached(D, id) :
          LET cp == CapturedPath(D, p) IN
          cp.ok => {x.id : x \in Rng(SegsOfWalk(D, cp.walk))} \subseteq is.segs
